@@ -342,6 +342,8 @@ func runC14Delim(c *Ctx) {
 	}
 	kvDelims, msgDelims := map[string]bool{}, map[string]bool{}
 	ownDelims := map[string]bool{}
+	var listBad []string
+	nList := 0
 	for _, t := range in.Explore(gen, []AVal{Sym{K: "key"}, Slc{Arr: arr, Lo: 0, Hi: 2}}, 500) {
 		if t.Cut != "" || t.Panic != "" || t.Converged {
 			continue
@@ -363,6 +365,33 @@ func runC14Delim(c *Ctx) {
 				return string(rune(i)), true
 			}
 			return isCstStr(v)
+		}
+		// in / include: the value is written between brackets on EVERY path ("(" + value + ")" is what the
+		// parser hands to the option splitter, which strips exactly one pair): a builder that leaves the pair
+		// away for values that already look bracketed makes the consumer strip the value's own brackets
+		isList := false
+		for a, v := range t.PC {
+			if v == 1 && (a == `eq("in",key)` || a == `eq("include",key)` || a == `eq(key,"in")` || a == `eq(key,"include")`) {
+				isList = true
+			}
+		}
+		if isList {
+			for i, part := range seq {
+				if keyOf(part) != "val0" {
+					continue
+				}
+				pre, post := "", ""
+				if i > 0 {
+					pre, _ = constText(seq[i-1])
+				}
+				if i+1 < len(seq) {
+					post, _ = constText(seq[i+1])
+				}
+				nList++
+				if !strings.HasSuffix(pre, "(") || !strings.HasPrefix(post, ")") {
+					listBad = append(listBad, fmt.Sprintf("on a path of the builder an in/include value is written as %q+value+%q instead of \"(\"+value+\")\" (%s)", pre, post, shorten(t.Describe(), 120)))
+				}
+			}
 		}
 		for i, part := range seq {
 			k := keyOf(part)
@@ -449,6 +478,8 @@ func runC14Delim(c *Ctx) {
 	}
 	c.Sites++
 	c.Check(len(bad) == 0, "C14-DELIM", "valid.GenValidKV", "kv-and-message", gen.Pos(), fmt.Sprintf("builder writes %v and %v; parser searches %v", keysOf(kvDelims), keysOf(msgDelims), keysOf(searched)), strings.Join(bad, "; "))
+	c.Sites++
+	c.Check(len(listBad) == 0, "C14-DELIM", "valid.GenValidKV", "list-brackets", gen.Pos(), fmt.Sprintf("%d in/include paths, value always written between brackets", nList), uniqJoin(listBad, 2))
 	// RM.Set joiner vs splitter default
 	joiners := map[string]bool{}
 	for _, b := range set.Blocks {
@@ -530,6 +561,32 @@ func runC14Fast(c *Ctx) {
 		}
 	}
 	if splitCall == nil {
+		// is there a fast path at all? a return on the edge where the text was found to contain no quote that
+		// hands back the result of some other call: a hand-written splitter is not strings.Split
+		for _, b := range fn.Blocks {
+			ret, ok := b.Instrs[len(b.Instrs)-1].(*ssa.Return)
+			if !ok || len(ret.Results) != 1 {
+				continue
+			}
+			v := ret.Results[0]
+			if ld, ok := v.(*ssa.UnOp); ok {
+				if cell, ok := ld.X.(*ssa.Alloc); ok {
+					for _, ins := range b.Instrs {
+						if st, ok := ins.(*ssa.Store); ok && st.Addr == ssa.Value(cell) {
+							v = st.Val
+						}
+					}
+				}
+			}
+			call, ok := v.(*ssa.Call)
+			if !ok || len(call.Call.Args) == 0 || call.Call.Args[0] != ssa.Value(fn.Params[0]) {
+				continue
+			}
+			if g := staticCallee(&call.Call); g != nil && g != fn {
+				c.Unk("C14-FAST", fnName(fn), "fast-path", call.Pos(), "a path returns the result of "+calleeName(&call.Call)+"(text, …) instead of strings.Split(text, separator): whether that splitter yields every piece (no cap on their number, no trimming) is not decided")
+				return
+			}
+		}
 		c.OK("C14-FAST", fnName(fn), "fast-path", fn.Pos(), "no fast path (every text goes through the quote-aware scan)")
 		return
 	}
